@@ -326,5 +326,10 @@ func (d Decimal) ToProtoDecimal() *dtpb.Decimal {
 
 // Round rounds a Decimal at the provided precision.
 func (d Decimal) Round(precision int32) Decimal {
+	// Nothing to round when the value has no more than precision fractional
+	// digits; rescaling to a huge precision would not terminate in practice.
+	if -decimal.Decimal(d).Exponent() <= precision {
+		return d
+	}
 	return Decimal(decimal.Decimal(d).Round(precision))
 }
